@@ -17,14 +17,14 @@ theorem C01_source_union_LinkageUnionFind_find : Gen.bodyHash "union.rs::Linkage
 theorem C01_source_union_LinkageUnionFind_union : Gen.bodyHash "union.rs::LinkageUnionFind::union" = some 410758727748425541 := by decide
 theorem C01_source_union_LinkageUnionFind_parent : Gen.bodyHash "union.rs::LinkageUnionFind::parent" = some 335447550651496418 := by decide
 theorem C01_source_union_LinkageUnionFind_relabel : Gen.bodyHash "union.rs::LinkageUnionFind::relabel" = some 644538061833340822 := by decide
-theorem C01_source_dendrogram_Dendrogram_new : Gen.bodyHash "dendrogram.rs::Dendrogram::new" = some 156506061701142077 := by decide
+theorem C01_source_dendrogram_Dendrogram_new : Gen.bodyHash "dendrogram.rs::Dendrogram::new" = some 881231569632461823 := by decide
 theorem C01_source_dendrogram_Dendrogram_push : Gen.bodyHash "dendrogram.rs::Dendrogram::push" = some 1068277134546096908 := by decide
 theorem C01_source_dendrogram_Dendrogram_len : Gen.bodyHash "dendrogram.rs::Dendrogram::len" = some 576102335745201653 := by decide
 theorem C01_source_dendrogram_Dendrogram_is_empty : Gen.bodyHash "dendrogram.rs::Dendrogram::is_empty" = some 762393176365876312 := by decide
 theorem C01_source_dendrogram_Dendrogram_observations : Gen.bodyHash "dendrogram.rs::Dendrogram::observations" = some 590533105440475782 := by decide
 theorem C01_source_dendrogram_Dendrogram_cluster_size : Gen.bodyHash "dendrogram.rs::Dendrogram::cluster_size" = some 36394306766873447 := by decide
 theorem C01_source_dendrogram_Dendrogram_eq_with_epsilon : Gen.bodyHash "dendrogram.rs::Dendrogram::eq_with_epsilon" = some 380150401863318009 := by decide
-theorem C01_source_dendrogram_Step_new : Gen.bodyHash "dendrogram.rs::Step::new" = some 624901326913536952 := by decide
+theorem C01_source_dendrogram_Step_new : Gen.bodyHash "dendrogram.rs::Step::new" = some 890580594722173371 := by decide
 theorem C01_source_dendrogram_Step_set_clusters : Gen.bodyHash "dendrogram.rs::Step::set_clusters" = some 888573702486550835 := by decide
 theorem C01_source_dendrogram_Step_eq_with_epsilon : Gen.bodyHash "dendrogram.rs::Step::eq_with_epsilon" = some 240740203726954700 := by decide
 theorem C01_source_lib_LinkageState_merge : Gen.bodyHash "lib.rs::LinkageState::merge" = some 346032082858665851 := by decide
